@@ -58,6 +58,17 @@ impl Ctx {
     }
 }
 
+/// Context for the libFuzzer targets: known findings from /verif/known_findings.json, repo from VERIF_REPO.
+pub fn fuzz_ctx(prop: &str) -> Ctx {
+    let dir = std::env::var("VERIF_DIR").unwrap_or_else(|_| "/verif".into());
+    let known: Vec<KnownFinding> = std::fs::read_to_string(format!("{}/known_findings.json", dir))
+        .ok()
+        .and_then(|s| serde_json::from_str::<Value>(&s).ok())
+        .and_then(|v| serde_json::from_value(v["findings"].clone()).ok())
+        .unwrap_or_default();
+    Ctx { prop: prop.to_string(), tier: Tier::Quick, seed: 0, build: "full-keccak_160_lsb-stone5".into(), known, threads: 1, repo: std::env::var("VERIF_REPO").unwrap_or_else(|_| "/repo".into()) }
+}
+
 pub fn sig_match(pattern: &str, sig: &str) -> bool {
     if let Some(p) = pattern.strip_suffix('*') {
         sig.starts_with(p)
